@@ -64,13 +64,18 @@ func init() {
 			}
 			os.Exit(0)
 		}
-		run.Rule = "histories of 1–30 operations over {Add, Remove, Route, RemoveRoute, Handle/HandleWithFilter} on 3–7 WebService objects whose root paths share prefixes, differ by a trailing slash or a variable, with and without a service on \"/\" or \"\" (lazy Path), dynamic routes on most; every operation under recover(); then the history-built container and a fresh container built from the final content answer 20–70 probes (every route ever declared instantiated, plain patterns, near misses, unclean paths, trailing slashes, other methods) through Dispatch and ServeHTTP; both routers; a history is non-trivial when an operation panicked or some probe got past the mux's 404; distinct = distinct protocol lines"
+		run.Rule = "histories of 1–30 operations over {Add, Remove, Route, RemoveRoute, Handle/HandleWithFilter} on 3–7 WebService objects whose root paths share prefixes, differ by a trailing slash or a variable, with and without a service on \"/\" or \"\" (lazy Path), dynamic routes on most; every operation under recover(); then the history-built container and a fresh container built from the final content answer 20–70 probes (every route ever declared instantiated, plain patterns, near misses, unclean paths, trailing slashes, other methods) through Dispatch and ServeHTTP; both routers; a history is non-trivial when an operation panicked or some probe got past the mux's 404; distinct = distinct protocol lines. Operations that would panic in the ServeMux (a plain handler on a pattern a WebService needs, or the reverse) are generated in 1 of 25 cases and end the history. Before the streams: the witness of the open finding F10b is re-executed and must still fail; the former witnesses of the finding F11 repaired by 093fa53 (Add(/users) Add(/users/{id}/b), Add(/a) Add(/a/), both orders, both routers, Remove of one of the sharing services, the pair uncovered by Remove(/), a plain handler under the shared prefix: 16 histories, replays/F11.json) are re-executed as regressions that must hold (no panic, the expected service answers, history-built = fresh = model). The only class that excuses a failing case is F10b; the class of the repaired F11 (WebServices with different root paths that want the same ServeMux pattern) is measured in the distribution (visits-former-F11-class) and excuses nothing; a full-size run that hardly visits it fails"
 		run.Trusted = []string{"net/http.ServeMux (Go 1.21 behaviour, GODEBUG httpmuxgo121=1 selected by /repo's go.mod) modelled by Model/Mux.lean and validated by this stream",
 			"path.Clean modelled structurally (Mux.cleanSegs)", "the routing model (Model/Route.lean) decides what dispatch answers; it is tied to /repo by the routing streams of C01–C04"}
 		run.Assumptions = []string{"every ServeMux pattern starts with \"/\" (no host patterns) and contains no \"{\"", "probe paths consist of URL-safe bytes (the Location of a 301 is the path itself)",
 			"duplicate root paths (os.Exit) are never generated; the harness turns the log call before os.Exit into a panic so that a mutant exiting there is observed",
+			"a panic of Add is accepted only when a pattern of the services collides with a pattern the user registered through Handle/HandleWithFilter before (Spec.c11AddTotalHolds; the ServeMux's own rule), a panic of Remove never",
 			"no container or service filters: Handle and HandleWithFilter are the same registration"}
 		if err := registry.ReplayWitnesses(run); err != nil {
+			return err
+		}
+		// the former witnesses of F11 (repaired by 093fa53) are regression cases that must hold
+		if err := registry.ReplayRegressions(run); err != nil {
 			return err
 		}
 		n := sizes(run, 750, 15000)
@@ -83,6 +88,17 @@ func init() {
 		run.Extra["generated_operations"] = st.Ops
 		run.Extra["history_lengths"] = st.Lengths
 		run.Extra["operations_generated_without_steering_away_from_panics"] = st.Risky
+		run.Extra["add_operations_generated_for_a_service_sharing_a_pattern_with_a_registered_one"] = st.Shared
+		// the class of the repaired finding F11 must stay covered: a regression there would go unnoticed otherwise
+		visits, completes := 0, 0
+		for _, router := range routers {
+			visits += run.Dist[router+":visits-former-F11-class"]
+			completes += run.Dist[router+":visits-former-F11-class:history-completes"]
+		}
+		run.Extra["histories_visiting_the_former_F11_class"] = map[string]int{"of": 2 * n, "visiting": visits, "visiting_and_completing": completes}
+		if 2*n >= 1000 && (visits*5 < 2*n || completes*8 < 2*n) {
+			return fmt.Errorf("the streams hardly visit the class of the repaired finding F11 (WebServices with different root paths that share ServeMux patterns): %d of %d histories visit it, %d of them complete and are probed; a regression there would go unnoticed", visits, 2*n, completes)
+		}
 		if run.Tier == "thorough" {
 			c11NewMux(run, routers)
 		}
